@@ -23,3 +23,66 @@ pub fn gemv_t(A: &CscMatrix<f64>, y: &mut [f64], x: &[f64], a: f64, b: f64) {
 pub fn symv(A: &CscMatrix<f64>, y: &mut [f64], x: &[f64], a: f64, b: f64) {
     A.sym().symv(y, x, a, b);
 }
+
+/// Per-iteration observer.  Nothing is recorded unless `start()` was called
+/// on the current thread.
+pub mod trace {
+    use crate::algebra::FloatT;
+    use std::cell::RefCell;
+
+    /// One observed iterate, in the solver's internal (equilibrated, homogeneous) coordinates
+    #[derive(Clone, Debug)]
+    pub struct IterRecord {
+        pub iter: u32,
+        pub x: Vec<f64>,
+        pub s: Vec<f64>,
+        pub z: Vec<f64>,
+        pub tau: f64,
+        pub kappa: f64,
+        /// step length that produced this iterate (0 at the first)
+        pub alpha: f64,
+        pub sigma: f64,
+        pub mu: f64,
+        pub dual_scaling: bool,
+        /// 0 = head of the main loop, 1 = after the loop, before post-processing
+        pub phase: u8,
+    }
+
+    thread_local! {
+        static TRACE: RefCell<Option<Vec<IterRecord>>> = const { RefCell::new(None) };
+    }
+
+    /// begin recording on this thread (clears any previous trace)
+    pub fn start() {
+        TRACE.with(|t| *t.borrow_mut() = Some(Vec::new()));
+    }
+
+    /// stop recording and return what was recorded
+    pub fn take() -> Vec<IterRecord> {
+        TRACE.with(|t| t.borrow_mut().take().unwrap_or_default())
+    }
+
+    #[allow(clippy::too_many_arguments)]
+    pub(crate) fn record<T: FloatT>(
+        iter: u32, x: &[T], s: &[T], z: &[T], τ: T, κ: T, α: T, σ: T, μ: T, dual_scaling: bool, phase: u8,
+    ) {
+        TRACE.with(|t| {
+            if let Some(v) = t.borrow_mut().as_mut() {
+                let f = |a: &[T]| a.iter().map(|x| x.to_f64().unwrap()).collect::<Vec<f64>>();
+                v.push(IterRecord {
+                    iter,
+                    x: f(x),
+                    s: f(s),
+                    z: f(z),
+                    tau: τ.to_f64().unwrap(),
+                    kappa: κ.to_f64().unwrap(),
+                    alpha: α.to_f64().unwrap(),
+                    sigma: σ.to_f64().unwrap(),
+                    mu: μ.to_f64().unwrap(),
+                    dual_scaling,
+                    phase,
+                });
+            }
+        });
+    }
+}
